@@ -353,7 +353,7 @@ def work(ctx, tier):
         if k < 1 and ctx.shard == 0:
             ctx.sample({"shared_budget_workload": spec})
     # whole sync calls racing in threads on one Budget (check-then-act on the shared window shows only here)
-    tconc.thread_slice(ctx, tier, common.rng_for(ctx, "threads"), ["tokens"], budget=True, breaker=False)
+    tconc.thread_slice(ctx, tier, common.rng_for(ctx, "threads"), ["tokens"], budget=True, breaker=False, components=True)
     if tier != "quick":
         common.repo_suite_under_monitors(ctx, "budget")
 
@@ -370,7 +370,7 @@ def conclude(ctx):
         "windows_filled_exactly": (ctx.cnt["windows_filled_exactly"], 100),
         "clock_reads": (ctx.cnt["clock_reads"], 1000),
     }
-    floors.update(tconc.floors(ctx))
+    floors.update(tconc.floors(ctx, components=True))
     L = 5 if ctx.tier == "quick" else 7
     return dict(
         rule=(
